@@ -6,9 +6,12 @@ float64 value and are narrowed — exactly — by the driver):
 
 * `c05.const mHalf sE st sL`                       → `_energy_constant`
 * `c05.dtype <eD> <tD>`                            → `_common_dtype`
-* `c05.t0 <mode> c E L`                            → `_energy_transfer_t0`
-* `c05.direct <mode> c1 c2 tof L1 L2 Ei`           → `none` | value
-* `c05.indirect <mode> c1 c2 tof L1 L2 Ef`         → `none` | value
+* `c05.dtype4 <eD> <tD> <l1D> <l2D>`               → result dtype of the kernels
+* `c05.t0 <mode> <l> c E L`                        → `_energy_transfer_t0`
+* `c05.direct <mode> <l1><l2> c1 c2 tof L1 L2 Ei`  → `none` | value
+* `c05.indirect <mode> <l1><l2> c1 c2 tof L1 L2 Ef`→ `none` | value
+
+`<l>`, `<l1><l2>` are the length dtypes: `d` (float64) or `s` (float32), e.g. `ds`.
 
 `mode` is `dd` (energy float64, result float64), `ss` (energy and tof float32, result float32)
 or `sd` (energy float32, tof float64/int, result float64).  Results are printed as the float64
@@ -35,6 +38,38 @@ def out32 : Option Float32 → String
   | none => "none"
   | some x => f64Hex x.toFloat
 
+/-- length conversions: float64 / float32 length into a float64 / float32 result -/
+def lcDD : LenCast Float Float Float := ⟨fun x => x, fun x => x⟩
+def lcDS : LenCast Float Float Float32 := ⟨Float.toFloat32, fun x => x⟩
+def lcSD : LenCast Float32 Float Float := ⟨Float32.toFloat, Float32.toFloat⟩
+def lcSS : LenCast Float32 Float Float32 := ⟨fun x => x, Float32.toFloat⟩
+
+section run
+variable {β α : Type} [Add α] [Neg α] [Sub α] [Mul α] [Div α] [LE α] [OfNat α 0] [∀ a b : α, Decidable (a ≤ b)]
+  [Div β] [Trans β]
+
+def runT0 (k : Casts Float β α) (lcD : LenCast Float Float α) (lcS : LenCast Float32 Float α)
+    (l : String) (c : Float) (e : β) (len : Float) : Option α :=
+  match l with
+  | "d" => some (energyTransferT0 k lcD c e len)
+  | "s" => some (energyTransferT0 k lcS c e len.toFloat32)
+  | _ => none
+
+def runKernel (direct : Bool) (k : Casts Float β α) (lcD : LenCast Float Float α) (lcS : LenCast Float32 Float α)
+    (ls : String) (c1 c2 : Float) (tof : α) (l1 l2 : Float) (e : β) : Option (Option α) :=
+  match direct, ls with
+  | true, "dd" => some (energyTransferDirect k lcD lcD c1 c2 tof l1 l2 e)
+  | true, "ds" => some (energyTransferDirect k lcD lcS c1 c2 tof l1 l2.toFloat32 e)
+  | true, "sd" => some (energyTransferDirect k lcS lcD c1 c2 tof l1.toFloat32 l2 e)
+  | true, "ss" => some (energyTransferDirect k lcS lcS c1 c2 tof l1.toFloat32 l2.toFloat32 e)
+  | false, "dd" => some (energyTransferIndirect k lcD lcD c1 c2 tof l1 l2 e)
+  | false, "ds" => some (energyTransferIndirect k lcD lcS c1 c2 tof l1 l2.toFloat32 e)
+  | false, "sd" => some (energyTransferIndirect k lcS lcD c1 c2 tof l1.toFloat32 l2 e)
+  | false, "ss" => some (energyTransferIndirect k lcS lcS c1 c2 tof l1.toFloat32 l2.toFloat32 e)
+  | _, _ => none
+
+end run
+
 def handle : List String → Option String
   | ["c05.const", a, b, c, d] => do
       let mHalf ← f64? a; let sE ← f64? b; let st ← f64? c; let sL ← f64? d
@@ -42,24 +77,26 @@ def handle : List String → Option String
   | ["c05.dtype", a, b] => do
       let x ← dtype? a; let y ← dtype? b
       some (dtypeStr (commonDType x y) ++ " " ++ dtypeStr (floatDType x))
-  | ["c05.t0", mode, a, b, c] => do
-      let cc ← f64? a; let e ← f64? b; let l ← f64? c
+  | ["c05.dtype4", a, b, c, d] => do
+      let e ← dtype? a; let t ← dtype? b; let l1 ← dtype? c; let l2 ← dtype? d
+      some (dtypeStr (energyTransferDType e t l1 l2))
+  | ["c05.t0", mode, l, a, b, c] => do
+      let cc ← f64? a; let e ← f64? b; let len ← f64? c
       match mode with
-      | "dd" => some (f64Hex (energyTransferT0 kDD cc e l))
-      | "ss" => some (f64Hex (energyTransferT0 kSS cc e.toFloat32 l).toFloat)
-      | "sd" => some (f64Hex (energyTransferT0 kSD cc e.toFloat32 l))
+      | "dd" => (runT0 kDD lcDD lcSD l cc e len).map f64Hex
+      | "ss" => (runT0 kSS lcDS lcSS l cc e.toFloat32 len).map (fun x => f64Hex x.toFloat)
+      | "sd" => (runT0 kSD lcDD lcSD l cc e.toFloat32 len).map f64Hex
       | _ => none
-  | [op, mode, a, b, c, d, e, f] => do
+  | [op, mode, ls, a, b, c, d, e, f] => do
       let c1 ← f64? a; let c2 ← f64? b; let tof ← f64? c; let l1 ← f64? d; let l2 ← f64? e
       let en ← f64? f
-      match op, mode with
-      | "c05.direct", "dd" => some (out64 (energyTransferDirect kDD c1 c2 tof l1 l2 en))
-      | "c05.direct", "ss" => some (out32 (energyTransferDirect kSS c1 c2 tof.toFloat32 l1 l2 en.toFloat32))
-      | "c05.direct", "sd" => some (out64 (energyTransferDirect kSD c1 c2 tof l1 l2 en.toFloat32))
-      | "c05.indirect", "dd" => some (out64 (energyTransferIndirect kDD c1 c2 tof l1 l2 en))
-      | "c05.indirect", "ss" => some (out32 (energyTransferIndirect kSS c1 c2 tof.toFloat32 l1 l2 en.toFloat32))
-      | "c05.indirect", "sd" => some (out64 (energyTransferIndirect kSD c1 c2 tof l1 l2 en.toFloat32))
-      | _, _ => none
+      let direct ← match op with
+        | "c05.direct" => some true | "c05.indirect" => some false | _ => none
+      match mode with
+      | "dd" => (runKernel direct kDD lcDD lcSD ls c1 c2 tof l1 l2 en).map out64
+      | "ss" => (runKernel direct kSS lcDS lcSS ls c1 c2 tof.toFloat32 l1 l2 en.toFloat32).map out32
+      | "sd" => (runKernel direct kSD lcDD lcSD ls c1 c2 tof l1 l2 en.toFloat32).map out64
+      | _ => none
   | _ => none
 
 end ScnVerif.Driver.C05
